@@ -364,6 +364,21 @@ theorem config_retrieval_counterexample_asa :
         = [["route inside 10.2.0.0 255.255.0.0 10.1.2.3"], ["route inside 10.3.0.0 255.255.0.0 10.1.2.3"]]
     ∧ faulted (badChecked .asa) (runProg .asa envAsaRetrievalRejected).tr = false := by decide
 
+/-- F-C09d.  NSX.  The device answers the request for its services (request number 3) with
+status 200 and a well-formed JSON object that has no `results`; the program reads it as an empty
+list, plans against an empty device (`plan false`: everything is created again, nothing deleted),
+sends these requests and exits 0. -/
+def envNsxListWithoutResults : Env :=
+  { dev := mkDev .nsx {} (some 3) "no_results",
+    plan := fun genuine => if genuine then [["PUT s2"], ["DELETE gone"]] else [["PUT s1"], ["PUT s2"]] }
+
+set_option maxRecDepth 100000 in
+theorem list_without_results_counterexample_nsx :
+    safe (badFull .nsx) (runProg .nsx envNsxListWithoutResults).tr = false
+    ∧ exitCode (runProg .nsx envNsxListWithoutResults) = 0
+    ∧ changeSends (runProg .nsx envNsxListWithoutResults).tr = [["PUT s1"], ["PUT s2"]]
+    ∧ faulted (badChecked .nsx) (runProg .nsx envNsxListWithoutResults).tr = false := by decide
+
 /-- F-C09c.  PAN-OS, two set commands.  The device closes the (reused) connection instead of
 answering the commit request (request number 6).  net/http replays the GET: `commit` is sent a
 second time, the run ends OK. -/
@@ -469,7 +484,7 @@ def obligations : List Lean.Name := [
   ``ok_only_if_all_sent, ``ok_only_if_all_sent_panos, ``ok_only_if_saved, ``asa_saved_if_completes,
   ``run_terminates_loopfree, ``run_terminates_ios', ``exit_nonzero_partial_nonpanos, ``panos_poll_continue_only_on_pend, ``panos_commit_poll_total,
   ``no_change_after_fault_counterexample_ios, ``config_retrieval_counterexample_asa,
-  ``closed_connection_counterexample_panos,
+  ``closed_connection_counterexample_panos, ``list_without_results_counterexample_nsx,
   ``NA.Spec.C09.badChecked_imp_badFull,
   ``skel_console_Send, ``skel_console_SendCmd, ``skel_console_IssueCmd, ``skel_console_GetCmdOutput,
   ``skel_console_GetOutput, ``skel_console_waitPrompt, ``skel_console_WaitShort, ``skel_console_WaitLogin,
